@@ -1,6 +1,6 @@
 (* C07 -- Every send completes in bounded time.  Statements only (partial: see DESIGN.md). *)
 From Coq Require Import ZArith List Bool Arith.
-From RV Require Import GenConsts M_Qos P_Qos P_QosOwner.
+From RV Require Import GenConsts M_Qos P_Qos P_QosOwner P_QosAlive P_QosCallers.
 Import ListNotations.
 Open Scope Z_scope.
 
@@ -59,3 +59,20 @@ Theorem C07_own_null_entry_answers : forall cmds w p k e h,
   state (cx w) = WantRply -> sent (cx w) = Some k -> echo (cx w) = Some e -> rx_hdr (cmds k) = Some h ->
   p_hdr p <> tx_hdr (cmds k) -> null_ok (cmds k) p = true -> pkt_rcvd cmds w p = set_state w Idle (HRes p).
 Proof. exact own_null_entry_answers. Qed.
+
+(* "every caller has been answered" at run level (coq/proof/P_QosCallers.v): in EVERY run -- any events (calls, packets, connection events, stalls,
+   outside cancels), tie policy, transport behaviour, number of steps, tripped assertions INCLUDED -- a caller still to be answered has something pending
+   that will answer it: its wait_for timer while it waits (and its wake-up as soon as its future is settled), its wake-up once the timer has fired
+   or it has been cancelled from outside.  So once the run has come to rest (nothing ready to run, no timer armed) no caller is left waiting: every
+   caller that started has been answered. *)
+Theorem C07_at_rest_all_answered : forall cmds plan lifo fuel evs c,
+  let w := fst (run cmds plan lifo fuel (world0 evs)) in
+  ready w = [] -> timers w = [] -> aget CNone c (callers w) = CNone \/ aget CNone c (callers w) = CDone.
+Proof. exact at_rest_all_answered. Qed.
+(* premises met, with callers that were answered: a command echoed after 10 ms, and one nobody answers *)
+Theorem C07_all_answered_nonvacuous :
+  (let w := fst (run (cmd_a 0 20000000) echoed false 5000 (world0 [(0, ConnMade); (15625, Call 0%nat)])) in
+   ready w = [] /\ timers w = [] /\ aget CNone 0%nat (callers w) = CDone /\ has_done 0%nat (trace w)) /\
+  (let w := fst (run (cmd_a 3 20000000) silent false 5000 (world0 [(0, ConnMade); (15625, Call 0%nat)])) in
+   ready w = [] /\ timers w = [] /\ aget CNone 0%nat (callers w) = CDone /\ has_done 0%nat (trace w)).
+Proof. exact all_answered_nonvacuous. Qed.
